@@ -391,11 +391,6 @@ impl InternalTimeSyncController for Spy {
         let raw = hook::clock_id_raw(id);
         self.inner.remove_source(id);
         self.sh.log.lock().unwrap().push(SpyEv::Remove { id: raw });
-        if raw == self.sh.sentinel.load(Ordering::SeqCst) {
-            if let Some(tx) = self.sh.done.lock().unwrap().take() {
-                let _ = tx.send(());
-            }
-        }
     }
     fn source_update(&mut self, id: ntp_proto::ClockId, usable: bool) {
         self.inner.source_update(id, usable);
@@ -406,6 +401,14 @@ impl InternalTimeSyncController for Spy {
         id: ntp_proto::ClockId,
         message: KalmanSourceMessage,
     ) -> InternalStateUpdate<KalmanControllerMessage> {
+        if hook::clock_id_raw(id) == self.sh.sentinel.load(Ordering::SeqCst) {
+            // end-of-history marker (sent after every source thread has finished): not part of
+            // the history, not forwarded, not logged
+            if let Some(tx) = self.sh.done.lock().unwrap().take() {
+                let _ = tx.send(());
+            }
+            return InternalStateUpdate::default();
+        }
         let q = self.sh.stamp();
         let tag = ts_to_u64(hook::message_time(&message));
         let from = self.clock.n_calls();
@@ -524,18 +527,20 @@ pub fn run_stress(scripts: &[Vec<Op>], min_agree: usize, take_control: bool) -> 
     // message loop on its own thread: current-thread tokio runtime with a paused
     // (virtual) clock, so a pending slew-end timer fires as soon as the loop is idle.
     let loop_wrapper = wrapper.clone();
+    let (fin_tx, fin_rx) = std::sync::mpsc::channel::<bool>();
     let loop_thread = std::thread::spawn(move || {
         let rt = tokio::runtime::Builder::new_current_thread()
             .enable_all()
             .start_paused(true)
             .build()
             .expect("runtime");
-        rt.block_on(async move {
+        let r = rt.block_on(async move {
             tokio::select! {
                 _ = loop_wrapper.run() => false,
                 r = done_rx => r.is_ok(),
             }
-        })
+        });
+        let _ = fin_tx.send(r);
     });
 
     let start = Arc::new(std::sync::Barrier::new(scripts.len()));
@@ -658,9 +663,42 @@ pub fn run_stress(scripts: &[Vec<Op>], min_agree: usize, take_control: bool) -> 
     }
     // everything the sources sent is now in the channel: a sentinel source, registered
     // and dropped after them, marks the end of the history (FIFO channel).
-    let s = wrapper.add_source(hook::clock_id(sentinel), SourceConfig::default());
-    drop(s);
-    let loop_finished = loop_thread.join().unwrap_or(false);
+    // The marker is a source *message* for an id nobody registered, put on the wrapper's
+    // own channel: whatever the loop does with removals or usability changes, it has to
+    // take this message off the channel after everything the sources sent.
+    {
+        let t = tag_time(sh.stamp());
+        let marker = SynthSnap {
+            id: sentinel,
+            offset: 0.0,
+            freq: 0.0,
+            var_offset: 1.0,
+            cov: 0.0,
+            var_freq: 1e-12,
+            wander: 1e-16,
+            delay: 1.0,
+            period: None,
+            source_uncertainty: dur_from_i64(0),
+            source_delay: dur_from_i64(0),
+            leap: NtpLeapIndicator::Unsynchronized,
+            time: ts_from_u64(t),
+        };
+        hook::inject_source_message(&*wrapper, hook::clock_id(sentinel), hook::make_message(&marker));
+    }
+    // generous wall-clock bound for the harness itself (never a verdict: the case becomes a
+    // harness error if the loop does not reach the marker)
+    let mut loop_finished = match fin_rx.recv_timeout(std::time::Duration::from_secs(30)) {
+        Ok(r) => r,
+        Err(_) => {
+            if let Some(tx) = sh.done.lock().unwrap().take() {
+                let _ = tx.send(());
+            }
+            false
+        }
+    };
+    if loop_thread.join().is_err() {
+        loop_finished = false;
+    }
     let (_, final_used) = wrapper.synchronization_state();
     let spy = sh.log.lock().unwrap().clone();
     StressResult {
